@@ -84,6 +84,8 @@ def s_keywords(tier, rng, evs=EVS, mode='tokens'):
                 out.append(case(ev, mode, None, nm[:i] + nm[i + 1:] + '(1)'))
                 out.append(case(ev, mode, None, nm[:i] + 'x' + nm[i + 1:] + '(1)'))
             out.append(case(ev, mode, None, nm + 'x(1)'))
+            out.append(case(ev, 'eval', None, nm.upper() + '(1)'))
+            out.append(case(ev, 'eval', None, nm.capitalize() + '(1)'))
             out.append(case(ev, 'eval', None, nm + '(1)'))
             out.append(case(ev, 'eval', None, nm + '(1,2)'))
             out.append(case(ev, 'eval', None, nm + '()'))
@@ -268,6 +270,9 @@ def s_oppool(tier, rng, evs=EVS, mode='eval'):
             for f in gen.F1[ev]:
                 out.append(case(ev, mode, ph, f + '(@)'))
                 out.append(case(ev, mode, ph, f + '(-@)'))
+            for pf in (['!'] if gen.HAS_BANG[ev] else []) + gen.POSTFIX5[ev] + ['²', '³']:
+                out.append(case(ev, mode, ph, '@' + pf))
+                out.append(case(ev, mode, ph, '(-@)' + pf))
             for f in gen.F2[ev]:
                 for y in lits[:4]:
                     out.append(case(ev, mode, ph, f + '(@,' + y + ')'))
@@ -1074,6 +1079,17 @@ def run_C11(tier, rng, stats):
             for _ in range(150 if tier == 'quick' else 1500):
                 n = 1 + rng.below(8)
                 lists.append([rng.choice(pool) for _ in range(n)])
+            # long argument lists (library sorts / selections switch algorithm around 16-20 elements): shuffled ranges
+            # and random draws of 17..60 arguments, as many as fit in 256 characters
+            for _ in range(12 if tier == 'quick' else 120):
+                n = 17 + rng.below(44)
+                base = [str(v) for v in range(1, n + 1)] if rng.chance(1, 2) else [rng.choice(small) for _ in range(n)]
+                for i in range(len(base) - 1, 0, -1):
+                    j = rng.below(i + 1)
+                    base[i], base[j] = base[j], base[i]
+                while len(f) + 2 + sum(len(agg_arg(v)) + 1 for v in base) > 250:
+                    base.pop()
+                lists.append(base)
             for L in lists:
                 e = f + '(' + ','.join(agg_arg(v) for v in L) + ')'
                 c = case(ev, 'eval', None, e)
@@ -1546,6 +1562,10 @@ def run_C10(tier, rng, stats):
         add('decimal', f + '(@)', '-0/2', ('f1', f, (-0.0,)))
     add('decimal', '@!', '-0/0', ('fact', '!', (-0.0,)))
     add('decimal', '@!', '-0/3', ('fact', '!', (-0.0,)))
+    pool_cases = [c for c in s_oppool(tier, rng) if any(ch.isalpha() or ch in '!°' for ch in dec_expr(c[3]).replace('@', ''))]
+    for c in pool_cases:
+        if c not in meta:
+            cs.append(c); meta[c] = ('model-only', '', ())
     cases, outs, model = run_streams(cs, stats)
     res = std_judge('C10', cases, outs, model)
     KF = vlib.known_findings()
@@ -2084,7 +2104,7 @@ def l0_i64(tier, rng, stats, res):
     reqs = []
     for op in ['ineg', 'iabs', 'isignum']:
         reqs += [(op, a, None) for a in pool]
-    for op in ['iadd', 'isub', 'imul', 'idiv', 'irem', 'iremeuclid', 'ipow', 'ishl', 'ishr']:
+    for op in ['iadd', 'isub', 'imul', 'idiv', 'irem', 'iremeuclid', 'ipow', 'ishl', 'ishr', 'iand', 'ior']:
         reqs += [(op, a, b) for a in pool for b in pool]
     l0_level(res, stats, 'L0 i64 primitives (RustInt definitions vs the machine)', reqs)
 
